@@ -254,6 +254,7 @@ def single_impl_rules(facts, rep, D):
         ms = facts.inherent_methods(ty)
         if not ms:
             continue
+        why_join = ""
         for name, internal, wraps in (("join", "join_internal", True), ("parent", "parent_internal", True),
                                       ("filename", "filename_internal", False), ("extension", "extension_internal", False)):
             b = ms.get(name)
@@ -282,7 +283,17 @@ def single_impl_rules(facts, rep, D):
                     good_p = src[0] == "call" and sname(src[1]) == internal and src[2] and src[2][0][0] == "arg" and src[2][0][1] == 0 and \
                         any(x[0] == "field" and x[2] == "path" and x[1][0] == "arg" and x[1][1] == 0 for a in src[2][1:2] for x in walk(a))
                     if name == "join":
-                        good_p = good_p and len(src[2]) >= 3 and any(x[0] == "arg" and x[1] == 1 for x in walk(src[2][2]))
+                        # the caller's string reaches the shared normaliser untouched (no trimming / prefix stripping /
+                        # re-writing in the wrapper: children listed by read_dir never pass through it)
+                        a = src[2][2] if len(src[2]) >= 3 else ("x",)
+                        while a[0] == "call" and a[1] in ("AsRef::as_ref", "Deref::deref", "Borrow::borrow", "String::as_str",
+                                                          "str::as_ref", "ToString::to_string", "ToOwned::to_owned", "Into::into",
+                                                          "From::from", "Clone::clone") and a[2]:
+                            a = a[2][0]
+                        exact = a[0] == "arg" and a[1] == 1
+                        if good_p and not exact:
+                            why_join = "the join argument is rewritten before normalisation: %s" % fmt(src[2][2])[:70]
+                        good_p = good_p and exact
                     good_f = f is not None and f[0] == "field" and f[2] == "fs" and f[1][0] == "arg" and f[1][1] == 0
                     ok = ok and good_p and good_f
                 else:
@@ -290,7 +301,7 @@ def single_impl_rules(facts, rep, D):
                     ok = ok and src[0] == "call" and sname(src[1]) == internal and src[2] and src[2][0][0] == "arg" and src[2][0][1] == 0
             n += 1
             rep.ob("R06.5", b.id, "%s delegates to %s on its own path%s" % (name, internal, " and keeps the filesystem" if wraps else ""), ok,
-                   "" if ok else "%s::%s does not (only) return %s(self.path, ..) wrapped with self.fs: path handling differs from the "
+                   "" if ok else (why_join if name == "join" and why_join else "") + " %s::%s does not (only) return %s(self.path, ..) wrapped with self.fs: path handling differs from the "
                    "single shared implementation" % (ty.split("::")[-1], name, internal), b.span)
         # root / is_root
         b = ms.get("root")
